@@ -178,6 +178,28 @@ class Bindings:
                 if sh == 'unwrap_or' and len(e['args']) > 1:
                     o = o | {x + '(default)' for x in self.origins(e['args'][1], depth + 1)}
                 return o
+            # the result of a function that did not exist on the reference tree is what its body evaluates to (its parameters are
+            # bound to the arguments of this call)
+            from .ir import ref_fns
+            known = ref_fns().get(self.crate.name)
+            g = getattr(self.crate, 'fns', {}).get(name)
+            if known is not None and g is not None and name not in known and g.kind != 'Closure' and depth < 20 and \
+                    all(isinstance(p_, dict) and p_.get('id') in self.by_id for p_ in g.params if isinstance(p_, dict) and p_.get('k') == 'bind'):
+                body = self.crate.user_body(g).hir
+                # call-site sensitive: the parameters stand for the arguments of *this* call while its body is evaluated
+                saved = {}
+                for p_, a_ in zip(g.params, e['args']):
+                    if isinstance(p_, dict) and p_.get('k') == 'bind':
+                        saved[p_['id']] = self.by_id.get(p_['id'])
+                        self.by_id[p_['id']] = (p_['name'], ('let', a_), ())
+                try:
+                    return self.origins(body, depth + 1)
+                finally:
+                    for k_, v_ in saved.items():
+                        if v_ is None:
+                            self.by_id.pop(k_, None)
+                        else:
+                            self.by_id[k_] = v_
             return {f'call({name})' + (f'@{e.get("ln")}' if getattr(self, 'sites', False) else '')}
         if k == 'struct':
             return {f"struct({e.get('path')})"}
